@@ -3,10 +3,14 @@ package remote
 import (
 	"context"
 	"errors"
+	"fmt"
 	"log/slog"
 
 	"github.com/anthdm/hollywood/actor"
 )
+
+// noSenderIndex is the Message.SenderIndex of a message without a sender.
+const noSenderIndex int32 = -1
 
 type streamReader struct {
 	DRPCRemoteUnimplementedServer
@@ -36,6 +40,15 @@ func (r *streamReader) Receive(stream DRPCRemote_ReceiveStream) error {
 		}
 
 		for _, msg := range envelope.Messages {
+			// The indices come from the network: never trust them.
+			if msg == nil ||
+				msg.TypeNameIndex < 0 || int(msg.TypeNameIndex) >= len(envelope.TypeNames) ||
+				msg.TargetIndex < 0 || int(msg.TargetIndex) >= len(envelope.Targets) ||
+				!validSenderIndex(msg.SenderIndex, len(envelope.Senders)) {
+				err := fmt.Errorf("streamReader: malformed envelope: index out of range")
+				slog.Error("streamReader receive", "err", err)
+				return err
+			}
 			tname := envelope.TypeNames[msg.TypeNameIndex]
 			payload, err := r.deserializer.Deserialize(msg.Data, tname)
 
@@ -45,7 +58,7 @@ func (r *streamReader) Receive(stream DRPCRemote_ReceiveStream) error {
 			}
 			target := envelope.Targets[msg.TargetIndex]
 			var sender *actor.PID
-			if len(envelope.Senders) > 0 {
+			if msg.SenderIndex != noSenderIndex && len(envelope.Senders) > 0 {
 				sender = envelope.Senders[msg.SenderIndex]
 			}
 			r.remote.engine.SendLocal(target, payload, sender)
@@ -53,4 +66,14 @@ func (r *streamReader) Receive(stream DRPCRemote_ReceiveStream) error {
 	}
 
 	return nil
+}
+
+// validSenderIndex reports whether idx is noSenderIndex or names an entry of
+// a senders table of length n. Index 0 with an empty table is how writers
+// that predate noSenderIndex encode an envelope without any sender.
+func validSenderIndex(idx int32, n int) bool {
+	if idx == noSenderIndex || (idx == 0 && n == 0) {
+		return true
+	}
+	return idx >= 0 && int(idx) < n
 }
